@@ -117,4 +117,4 @@ def unit():
 '''}),
         }),
     ]
-    return Unit('belt', prelude=K.PRELUDE_BLOCK, spec=['steps.rs'], mods=[Mod('belt_lib', 'belt-ctr/src/lib.rs', items=items)])
+    return Unit('belt', prelude=K.PRELUDE_BLOCK, spec=['steps.rs'], mods=K.DEPS() + [Mod('belt_lib', 'belt-ctr/src/lib.rs', items=items)])
